@@ -487,7 +487,15 @@ Error format_node(
     case NodeType::kEmbedData: {
       const EmbedDataNode* embed_node = node->as<EmbedDataNode>();
       ASMJIT_PROPAGATE(sb.append('.'));
-      ASMJIT_PROPAGATE(format_data_type(sb, format_options.flags(), builder->arch(), embed_node->type_id()));
+      // The node keeps the type id it was given, which can be abstract (kIntPtr / kUIntPtr) or wider than any data directive
+      // (vector types) - name the directive by the item size the node resolved, like `format_data()` does.
+      static const TypeId data_type_id_by_size_log2[] = { TypeId::kUInt8, TypeId::kUInt16, TypeId::kUInt32, TypeId::kUInt64 };
+      uint32_t data_item_size = embed_node->type_size();
+      if (!Support::is_power_of_2(data_item_size)) {
+        data_item_size = 1;
+      }
+      data_item_size = Support::min<uint32_t>(data_item_size, 8u);
+      ASMJIT_PROPAGATE(format_data_type(sb, format_options.flags(), builder->arch(), data_type_id_by_size_log2[Support::ctz(data_item_size)]));
       ASMJIT_PROPAGATE(sb.append_format(" {Count=%zu Repeat=%zu TotalSize=%zu}", embed_node->item_count(), embed_node->repeat_count(), embed_node->data_size()));
       break;
     }
